@@ -45,3 +45,15 @@ pub(crate) fn objects_mut(e: &mut Execution) -> &mut object::Store {
 pub(crate) fn id_raw(e: &Execution) -> usize {
     e.id.0
 }
+
+impl Execution {
+    /// Contract model of `Execution::schedule` for a one-thread execution whose thread stays
+    /// runnable: nothing to race with, nobody to switch to => returns `false`, thread set unchanged.
+    /// (Proved for the real function by `c05_schedule_n1`; the path gains one Schedule entry, which
+    /// the single-thread atomic glue never reads back.)
+    pub(crate) fn schedule_model_n1(&mut self) -> bool {
+        assert!(crate::rt::thread::verif_kani::len(&self.threads) == 1, "OBL:MODEL.schedule_n1.pre_one_thread");
+        assert!(self.threads.active().is_runnable(), "OBL:MODEL.schedule_n1.pre_runnable");
+        false
+    }
+}
